@@ -52,7 +52,7 @@ class World(BaseWorld):
         st = Streams(seed)
         rc, ro = st.get('config'), st.get('ops')
         types = list(rc.choice(NAMESETS))
-        n = rc.randrange(2, 22)
+        n = rc.randrange(2, 22) if tier != 'thorough' else rc.randrange(2, 50)
         w = {'dens': rc.uniform(1, 4), 'diam': rc.uniform(1, 4), 'check_dens': rc.uniform(0.2, 1),
              'check_diam': rc.uniform(0.2, 1)}
         order_bias = rc.random()
